@@ -61,6 +61,10 @@ NextCT == \E tag \in Tags :
             \/ \E na \in 0..2 :
                  /\ c' = <<"po", na, tag>>
                  /\ Emit("CT", PacketOutEl("m", [i \in 1..na |-> LeafAct("a" \o ToString(i), (<<"output", "regload2">>)[i], tag + i)], 14, tag).tree)
+            \/ \E kind \in LeafActKinds, first \in BOOLEAN :        \* packet-out with every action kind before / after a plain output action
+                 /\ c' = <<"poact", kind, first, tag>>
+                 /\ LET a == LeafAct("a1", kind, tag)  o == LeafAct("a2", "group", tag + 3) IN
+                    Emit("CT", PacketOutEl("m", IF first THEN <<a, o>> ELSE <<o, a>>, 5, tag).tree)
             \/ \E kind \in MpKinds : c' = <<"mp", kind, tag>> /\ Emit("CT", MpReqEl("m", kind, <<>>, tag).tree)
             \/ \E k \in 0..2 : c' = <<"tlv", k, tag>> /\ Emit("CT", TlvModEl("m", k, tag).tree)
             \/ \E inner \in {"echoreq", "flowmod", "groupmod", "pktout", "portmod"} :
